@@ -130,6 +130,8 @@ pub struct UseSite {
     pub ty_expr: String,
     /// the target is a function and is called
     pub call: bool,
+    /// the target is a mutable global (`:=`): it is also assigned a new value of its type
+    pub assign: bool,
 }
 
 #[derive(Clone, Debug)]
@@ -302,7 +304,12 @@ fn render_module(m: &Module, is_main: bool) -> String {
                 s.push_str(&format!("    u{}: {} = {}.Ka {}\n", k, u.ty_expr, u.expr, payload.literal(k)));
                 s.push_str(&format!("    w{}: {} = {}.Kb\n", k, u.ty_expr, u.expr));
             }
-            t => s.push_str(&format!("    u{}: {} = {}{}\n", k, t.name(), u.expr, if u.call { "()" } else { "" })),
+            t => {
+                s.push_str(&format!("    u{}: {} = {}{}\n", k, t.name(), u.expr, if u.call { "()" } else { "" }));
+                if u.assign {
+                    s.push_str(&format!("    {} = {}\n", u.expr, t.literal(k + 7)));
+                }
+            }
         }
     }
     for l in &m.raw_body {
@@ -348,7 +355,7 @@ fn render_flat(modules: &[Module]) -> String {
             } else if let Some((cm, cg)) = &g.copies {
                 s.push_str(&format!("{} :: {}\n", n, flat_name(modules, *cm, cg)));
             } else {
-                s.push_str(&format!("{} :: {}\n", n, g.lit.clone().unwrap_or_default()));
+                s.push_str(&format!("{} {} {}\n", n, if g.init.contains(" := ") { ":=" } else { "::" }, g.lit.clone().unwrap_or_default()));
             }
         }
     }
@@ -366,7 +373,12 @@ fn render_flat(modules: &[Module]) -> String {
                     s.push_str(&format!("    u{}: {} = {}.Ka {}\n", k, r, r, payload.literal(k)));
                     s.push_str(&format!("    w{}: {} = {}.Kb\n", k, r, r));
                 }
-                t => s.push_str(&format!("    u{}: {} = {}{}\n", k, t.name(), r, if u.call { "()" } else { "" })),
+                t => {
+                    s.push_str(&format!("    u{}: {} = {}{}\n", k, t.name(), r, if u.call { "()" } else { "" }));
+                    if u.assign {
+                        s.push_str(&format!("    {} = {}\n", r, t.literal(k + 7)));
+                    }
+                }
             }
             k += 1;
         }
@@ -619,9 +631,9 @@ pub fn generate(seed: u64) -> Project {
             }
             let g = r.pick(&gs).clone();
             if g.is_type {
-                uses.push(UseSite { expr: format!("{}.{}", ns, g.name), target: (*t, g.name.clone()), ty: g.ty.clone(), ty_expr: format!("{}.{}", ns, g.name), call: false });
+                uses.push(UseSite { expr: format!("{}.{}", ns, g.name), target: (*t, g.name.clone()), ty: g.ty.clone(), ty_expr: format!("{}.{}", ns, g.name), call: false, assign: false });
             } else {
-                uses.push(UseSite { expr: format!("{}.{}", ns, g.name), target: (*t, g.name.clone()), ty: g.ty.clone(), ty_expr: String::new(), call: g.is_fn });
+                uses.push(UseSite { expr: format!("{}.{}", ns, g.name), target: (*t, g.name.clone()), ty: g.ty.clone(), ty_expr: String::new(), call: g.is_fn, assign: !g.is_fn && g.init.contains(" := ") && r.chance(1, 2) });
             }
             // chained access through a namespace the target imported itself
             if r.chance(1, 3) {
@@ -638,6 +650,7 @@ pub fn generate(seed: u64) -> Project {
                             ty: g2.ty.clone(),
                             ty_expr: format!("{}.{}.{}", ns, ns2, g2.name),
                             call: g2.is_fn,
+                            assign: false,
                         });
                         features.insert("chain_access");
                         if g2.is_type {
@@ -649,7 +662,7 @@ pub fn generate(seed: u64) -> Project {
         }
         for (name, (t, g)) in &b.names {
             let gl = modules[*t].globals.iter().find(|x| x.name == *g).unwrap().clone();
-            uses.push(UseSite { expr: name.clone(), target: (*t, g.clone()), ty: gl.ty.clone(), ty_expr: name.clone(), call: gl.is_fn });
+            uses.push(UseSite { expr: name.clone(), target: (*t, g.clone()), ty: gl.ty.clone(), ty_expr: name.clone(), call: gl.is_fn, assign: !gl.is_fn && !gl.is_type && gl.init.contains(" := ") && r.chance(1, 2) });
         }
         r.shuffle(&mut uses);
         modules[f].uses = uses;
@@ -750,7 +763,7 @@ pub fn generate(seed: u64) -> Project {
                 let alias = format!("ntw{}", alias_counter);
                 modules[0].imports.push(Import { target: t, spec, kind: ImportKind::Use { alias: Some(alias.clone()) } });
                 if let Some(g) = modules[t].globals.iter().find(|g| !g.is_type && !g.is_fn).cloned() {
-                    modules[0].uses.push(UseSite { expr: format!("{}.{}", alias, g.name), target: (t, g.name.clone()), ty: g.ty.clone(), ty_expr: String::new(), call: false });
+                    modules[0].uses.push(UseSite { expr: format!("{}.{}", alias, g.name), target: (t, g.name.clone()), ty: g.ty.clone(), ty_expr: String::new(), call: false, assign: false });
                 }
             }
             features.insert("twin_folder");
@@ -795,7 +808,7 @@ pub fn generate(seed: u64) -> Project {
     let closure_before = model_closure(&modules, &existing_all);
     let loaded: Vec<usize> = (0..modules.len()).filter(|i| closure_before.contains(&modules[*i].rel)).collect();
     if tr.chance(1, 3) {
-        let mut order: Vec<usize> = (0..9).collect();
+        let mut order: Vec<usize> = (0..11).collect();
         tr.shuffle(&mut order);
         'outer: for which in order {
             let f = *tr.pick(&loaded);
@@ -903,6 +916,22 @@ pub fn generate(seed: u64) -> Project {
                                 }
                             }
                         }
+                    }
+                }
+                9 => {
+                    // a mutable global of another module assigned a value of the wrong type
+                    if let Some(u) = modules[f].uses.iter().find(|u| u.target.0 != f && !u.call && !matches!(u.ty, Ty::Blob(..) | Ty::Enum(..)) && modules[u.target.0].globals.iter().any(|g| g.name == u.target.1 && g.init.contains(" := "))).cloned() {
+                        modules[f].raw_body.push(format!("{} = {}", u.expr, u.ty.other_prim().literal(3)));
+                        twist = Some("imported-mutable-assigned-wrong-type".into());
+                        break 'outer;
+                    }
+                }
+                10 => {
+                    // a constant of another module assigned through the import
+                    if let Some(u) = modules[f].uses.iter().find(|u| u.target.0 != f && !u.call && !matches!(u.ty, Ty::Blob(..) | Ty::Enum(..)) && modules[u.target.0].globals.iter().any(|g| g.name == u.target.1 && g.init.contains(" :: ") && g.copies.is_none() && !g.is_fn)).cloned() {
+                        modules[f].raw_body.push(format!("{} = {}", u.expr, u.ty.literal(4)));
+                        twist = Some("imported-constant-assigned".into());
+                        break 'outer;
                     }
                 }
                 8 => {
